@@ -154,25 +154,52 @@
                                          the class "one start-face bit" and for the checked class of any number of runs
                                          (C01_ebsim_roundtrip_events_checked_ct2); and |events| <= #symbols in the one-bit class (no event is recorded
                                          twice, J6; every S symbol has at most ONE event: both would be glued to its left edge)
-    NOT proved - the general theorem C01_ebsim_roundtrip (split events AND several runs).  Missing is exactly:
-        eb_encode c2v opp nv niso ndeg = EOk o  ->  2 <= length (o_bits o)  ->  o_events o <> []  ->
-        (forall k, k < length (o_syms o) -> script_atE c2v opp nf (o_pcc o) (rev (o_syms o)) (EVseg_of o) k) /\
+      C01_ebsim_small_step_runs / C01_ebsim_events_characterized_all / C01_ebsim_events_nodup_all   (ANY number of runs;
+                                         Proofs/EbTraceStepM_proofs.v, EbTraceInvM_proofs.v, EbSimEvEncM_proofs.v)
+                                         proved: between two consecutive configurations of the trace of ANY encoding - also from
+                                         the last one of a call of EncodeConnectivityFromCorner to the first of the next - the
+                                         older one does its [SPEC] step and the newer state agrees with the result on symbols,
+                                         processed corners, events, face_to_split_symbol_map_, last id ([WSTEP] / [REL];
+                                         visited_faces_ only grows); the invariants J1, J3, J5, J6 hold along the WHOLE trace, so
+                                         the recorded events of EVERY encoding are characterized exactly as in
+                                         C01_ebsim_events_characterized (in particular CheckAndStoreTopologySplitEvent never
+                                         pairs faces of different runs wrongly: the characterization is global) and no event is
+                                         recorded twice
+      C01_ebsim_small_step_runs_full / C01_ebsim_stack_with_events_runs / C01_ebsim_script_all / C01_ebsim_events_count
+                                         proved, ANY number of runs and ANY events: the full small step across runs ([MSTEP]:
+                                         [SSTEP] inside a run, [RSTEP] at a run boundary - the older configuration emits E,
+                                         every entry left on the stack is dead, the new stack is one entry), the stack invariants
+                                         along the whole trace (EbTraceInvM_proofs Section InvS: [J4M] - an entry below the top
+                                         was pushed by an S of the CURRENT run -, [vf_NB], [dead_not_aliveM]), the stack
+                                         correspondence (decoder [topsE] = current face, the encoder's alive entries, one entry
+                                         per later run), event <=> dead left corner, and from them the per-symbol script
+                                         conditions [script_atE] for EVERY symbol of EVERY encoding; |events| <= #symbols
+      C01_ebsim_roundtrip_events_start_partial / C01_ebsim_roundtrip_events_start_ct_partial
+                                         proved: THE GENERAL ROUND TRIP (any start faces / components, any split events, every
+                                         remove_invalid_vertices; eb_core for tables with C13's invariants, eb_decode_of for
+                                         CornerTable::Create tables under size bound + G3) UNDER ONE PREMISE: [start_ok_g] - the
+                                         start-face phase: the decoder's final stack has one entry per start-face bit, and for an
+                                         interior bit the entry's face is glued to the recorded start face.  (Decidable:
+                                         [start_ok_b]; proved for one bit - C01_ebsim_roundtrip_events_1 - and without events.)
+    NOT proved - the general theorem C01_ebsim_roundtrip without that premise.  Missing is exactly:
+        eb_encode_tr c2v opp nv niso ndeg = EOk (o, tr)  ->  2 <= length (o_bits o)  ->  o_events o <> []  ->
         start_ok_g c2v opp nf (o_pcc o) (rev (o_syms o)) (topsE (rev (o_syms o)) (EVseg_of o) (length (o_syms o))) (o_bits o)
-    (for one bit: script_all / start_all of Proofs/EbSimEvEnc_proofs.v; without events: noevent_script of EbSim_proofs.v).  The
-    decoder half, the events bookkeeping, the C / E / R / L clauses ([efact], all runs) are there; what is proved for ONE call
-    of EncodeConnectivityFromCorner only is the trace analysis with events: J1 .. J5, [J4] (the entries below the top are left
-    corners of S symbols), [stack_future], [dead_not_alive] of EbTraceInv_proofs.v and [TS], [ev_not_alive], [not_alive_ev] of
-    EbSimEvEnc_proofs.v assume the first configuration has no symbol / event / face_to_split entry.  For several runs they are
-    needed per run with an offset (the symbols, events and map entries of the earlier runs present), plus the cross-run fact
-    that CheckAndStoreTopologySplitEvent never finds a face of an EARLIER run (all three neighbours of an S face lie in its own
-    run: gate = previous face, right = next face, left = alive or visited inside the run by [not_alive_ev]), and [topsE] carries
-    one entry per later run below the current run's entries (as [tops_stackM] does without events).
-    (cntv <= vertices + splits is already derived from the script conditions for any number of runs: C01_ebsim_verts_fit_script.) *)
+    i.e. the RUNS of the trace (boundaries of [MSTEP], whose start corners are the [rest] entries of
+    C01_ebsim_stack_with_events_runs) have to be matched with the blocks of [RUNS] (C01_ebsim_encoder_history: one block per
+    bit, interior bit => Opposite(init corner) = the block's oldest corner, [IFc']).  Without events the match came from the
+    BALANCE of every block ([RUNS2]); with events a joint induction over the fold of EncodeConnectivity is needed: a ledger in
+    the invariant [GOODM] of EbTraceStepM_proofs recording, per start-face bit, the position of the first configuration of its
+    call and Opposite(init corner) = its corner, and that EVERY bit's call emits a symbol (the start face is not visited:
+    [CLOSED] + [FANC] of EbEncoder_proofs.ECinv at the prefix state, as in EbSimEnc_proofs.ec_corner_hist); then [TS] with
+    `rest = the corners at the ledger positions` and [start_ok_g_of_idx].
+    (cntv <= vertices + splits and |events| <= faces are derived for any number of runs: C01_ebsim_verts_fit_script,
+    C01_ebsim_events_count.) *)
 From Coq Require Import ZArith List Bool.
 From Draco Require Import Model.CornerTable Model.EbEncoder Model.EbTrace Proofs.CornerTable_proofs Proofs.EbEncoder_proofs.
 From Draco Require Import Proofs.EbTrace_proofs Proofs.EbSimEnc_proofs Proofs.EbSimDec_proofs Proofs.EbSimS_proofs Proofs.EbSimLoop_proofs Proofs.EbSim_proofs.
 From Draco Require Import Proofs.EbSimEv_proofs Proofs.EbSimEvChk_proofs Proofs.EbSimCount_proofs.
 From Draco Require Import Proofs.EbTraceStep_proofs Proofs.EbTraceInv_proofs Proofs.EbSimEvEnc_proofs.
+From Draco Require Import Proofs.EbTraceStepM_proofs Proofs.EbTraceInvM_proofs Proofs.EbSimEvEncM_proofs.
 From Draco Require Model.Edgebreaker Proofs.Edgebreaker_proofs Proofs.Edgebreaker_fan_proofs Proofs.Edgebreaker_compact_proofs
   Proofs.EbSimCompact_proofs.
 Import ListNotations.
@@ -834,6 +861,80 @@ Theorem C01_ebsim_events_count_1 : forall c2v opp nf nv niso ndeg o tr,
   eb_encode_tr c2v opp nv niso ndeg = EOk (o, tr) -> length (o_bits o) = 1 -> length (o_events o) <= length (o_syms o).
 Proof. exact events_count_1. Qed.
 Print Assumptions C01_ebsim_events_count_1.
+
+(** ** any number of runs: the weak small step across run boundaries, the events of EVERY encoding *)
+Theorem C01_ebsim_small_step_runs : forall c2v opp nv niso ndeg o tr, eb_encode_tr c2v opp nv niso ndeg = EOk (o, tr) -> length tr <= NF c2v ->
+  tr = [] \/ exists sF, GOODW opp (rev tr) sF /\ o_syms o = rev (syms sF) /\ o_events o = rev (evs sF).
+Proof. exact trace_wsteps. Qed.
+Print Assumptions C01_ebsim_small_step_runs.
+
+Theorem C01_ebsim_events_characterized_all : forall c2v opp nf nv niso ndeg o tr,
+  length c2v = 3 * nf -> opp_ok c2v opp -> (forall c, c < 3 * nf -> vtx c2v c < nv) -> one_fan c2v opp ->
+  eb_encode_tr c2v opp nv niso ndeg = EOk (o, tr) ->
+  let ns := length (o_syms o) in let Q := o_pcc o in
+  forall src spl ed,
+  In (src, spl, ed) (o_events o) <->
+  exists m sg x, src = Z.of_nat m /\ spl = Z.of_nat sg /\ sg < m /\ m < ns /\ nth sg (o_syms o) 0%Z = 1%Z /\
+    nth (ns - 1 - sg) Q 0 / 3 = x / 3 /\
+    ((ed = 1%Z /\ (nth m (o_syms o) 0%Z = 5%Z \/ nth m (o_syms o) 0%Z = 7%Z) /\ oat opp (next_c (nth (ns - 1 - m) Q 0)) = Some x) \/
+     (ed = 0%Z /\ (nth m (o_syms o) 0%Z = 3%Z \/ nth m (o_syms o) 0%Z = 7%Z) /\ oat opp (prev_c (nth (ns - 1 - m) Q 0)) = Some x)).
+Proof. exact events_characterized_all. Qed.
+Print Assumptions C01_ebsim_events_characterized_all.
+
+Theorem C01_ebsim_events_nodup_all : forall c2v opp nf nv niso ndeg o tr,
+  length c2v = 3 * nf -> opp_ok c2v opp -> (forall c, c < 3 * nf -> vtx c2v c < nv) -> one_fan c2v opp ->
+  eb_encode_tr c2v opp nv niso ndeg = EOk (o, tr) -> NoDup (o_events o).
+Proof. exact events_nodup_all. Qed.
+Print Assumptions C01_ebsim_events_nodup_all.
+
+(** the FULL small step across runs, the stack correspondence and the script conditions for EVERY encoding *)
+Theorem C01_ebsim_small_step_runs_full : forall c2v opp nv niso ndeg o tr, eb_encode_tr c2v opp nv niso ndeg = EOk (o, tr) -> length tr <= NF c2v ->
+  tr = [] \/ exists sF, GOODM c2v opp (rev tr) sF /\ o_syms o = rev (syms sF) /\ o_events o = rev (evs sF).
+Proof. exact trace_msteps. Qed.
+Print Assumptions C01_ebsim_small_step_runs_full.
+
+Theorem C01_ebsim_stack_with_events_runs : forall c2v opp nf nv niso ndeg o tr,
+  length c2v = 3 * nf -> opp_ok c2v opp -> (forall c, c < 3 * nf -> vtx c2v c < nv) -> one_fan c2v opp ->
+  eb_encode_tr c2v opp nv niso ndeg = EOk (o, tr) ->
+  let ns := length (o_syms o) in let Q := o_pcc o in
+  forall i cf, nth_error tr i = Some cf -> exists rest,
+  map (fun j => nth j Q 0) (topsE (rev (o_syms o)) (EVseg_of o) (ns - i)) =
+  cf_corner cf :: map the (filter (alive_e tr) (tl (stack (cf_st cf)))) ++ rest.
+Proof. exact stack_eventsM. Qed.
+Print Assumptions C01_ebsim_stack_with_events_runs.
+
+Theorem C01_ebsim_script_all : forall c2v opp nf nv niso ndeg o tr,
+  length c2v = 3 * nf -> opp_ok c2v opp -> (forall c, c < 3 * nf -> vtx c2v c < nv) -> one_fan c2v opp ->
+  eb_encode_tr c2v opp nv niso ndeg = EOk (o, tr) ->
+  forall k, k < length (o_syms o) -> script_atE c2v opp nf (o_pcc o) (rev (o_syms o)) (EVseg_of o) k.
+Proof. exact script_allM. Qed.
+Print Assumptions C01_ebsim_script_all.
+
+Theorem C01_ebsim_roundtrip_events_start_partial : forall c2v opp nf nv niso ndeg o tr,
+  length c2v = 3 * nf -> opp_ok c2v opp -> (forall c, c < 3 * nf -> vtx c2v c < nv) -> one_fan c2v opp ->
+  eb_encode_tr c2v opp nv niso ndeg = EOk (o, tr) ->
+  forall rm maxv, (Z.of_nat (length (o_syms o)) < 2147483648)%Z -> (cntv (rev (o_syms o)) <= maxv)%Z ->
+  start_ok_g c2v opp nf (o_pcc o) (rev (o_syms o)) (topsE (rev (o_syms o)) (EVseg_of o) (length (o_syms o))) (o_bits o) ->
+  let F := Z.of_nat (length (o_pcc o)) in
+  exists n s, Edgebreaker.eb_core (3 * F) maxv F rm (rev (o_syms o)) (o_events o) (Edgebreaker.bits_of_list (o_bits o)) = Edgebreaker.Ok (n, s) /\
+              eb_iso c2v opp (o_pcc o) (Edgebreaker.c2v s) (Edgebreaker.copp s).
+Proof. exact ebsim_roundtrip_events_start_partial. Qed.
+Print Assumptions C01_ebsim_roundtrip_events_start_partial.
+
+Theorem C01_ebsim_roundtrip_events_start_ct_partial : forall faces t o rm, ct_create faces = Some t -> eb_encode_ct t = EOk o ->
+  (Z.of_nat (3 * length faces + length (ct_vcorn t)) < 2147483648)%Z ->
+  ((3 * o_nfaces o) / 2 <= (o_nverts o * (o_nverts o - 1)) / 2)%Z ->
+  start_ok_g (ct_c2v t) (ct_opp t) (length faces) (o_pcc o) (rev (o_syms o))
+             (topsE (rev (o_syms o)) (EVseg_of o) (length (o_syms o))) (o_bits o) ->
+  exists n s, eb_decode_of o rm = Edgebreaker.Ok (n, s) /\ eb_iso (ct_c2v t) (ct_opp t) (o_pcc o) (Edgebreaker.c2v s) (Edgebreaker.copp s).
+Proof. exact ebsim_roundtrip_events_start_ct_partial. Qed.
+Print Assumptions C01_ebsim_roundtrip_events_start_ct_partial.
+
+Theorem C01_ebsim_events_count : forall c2v opp nf nv niso ndeg o tr,
+  length c2v = 3 * nf -> opp_ok c2v opp -> (forall c, c < 3 * nf -> vtx c2v c < nv) -> one_fan c2v opp ->
+  eb_encode_tr c2v opp nv niso ndeg = EOk (o, tr) -> length (o_events o) <= length (o_syms o).
+Proof. exact events_countM. Qed.
+Print Assumptions C01_ebsim_events_count.
 
 Theorem C01_ebsim_ndp_check_sound : forall opp tr, ndp_b opp tr = true -> ndp opp tr.
 Proof. exact ndp_b_sound. Qed.
